@@ -22,6 +22,7 @@ def run(ctx):
     from rules import c11
     c11.writes_inside_commit(ctx, 'C10')
     ss.cache_after_db(ctx, 'C10')
+    ss.write_apis_unconditional(ctx, 'C10')
     ds.join_rules(ctx, 'C10')
     ds.err_discipline(ctx, 'C10', ['akd::directory::', 'akd::append_only_zks::', 'akd::tree_node::', 'akd::storage::manager::'], EXC)
 
